@@ -309,6 +309,8 @@ void h_IC2C_isInContainer_ij(void)
  * h_GF_compute): prepare: already prepared -> nothing; operator not prepared -> exStatusMismatch, status unchanged; else Prepared.
  * compute: already computed -> nothing; not prepared -> prepare() first (may throw); then Computed. */
 unsigned int g_gstatus;            /* Status of the element of the ghost entry */
+_Bool g_gvanishing;                /* its Vanishing flag: true until prepare() has found a part (proved in specs/gf.c: h_GF_ctor ensures Vanishing,
+                                      h_GF_prepare: Status >= Prepared || (Vanishing && no parts) is kept, Vanishing <=> no part afterwards) */
 _Bool g_at_ghost;                  /* the shared pointer dereferenced last is the one stored in the ghost entry */
 unsigned long g_prep_hits, g_comp_hits, g_n_calls;
 static inline struct GreensFunction *GFPtr_arrow(GFPtr *s)
@@ -324,7 +326,14 @@ void GreensFunction_prepare(struct GreensFunction *e)
   g_prep_hits++; REACH("prepare_ghost");
   if (g_gstatus >= Prepared) return;
   if (nondet_bool()) { VERIF_THROW("exStatusMismatch"); return; }
-  g_gstatus = Prepared;
+  g_gstatus = Prepared; g_gvanishing = nondet_bool();
+}
+/* GreensFunction::isVanishing(): the flag of the element (not called by the unchanged container code; modelled so that a change that
+ * consults it is decided instead of being reported as missing vocabulary) */
+static inline _Bool GreensFunction_isVanishing(struct GreensFunction *e)
+{
+  if (!g_at_ghost) return nondet_bool();
+  return g_gvanishing;
 }
 void GreensFunction_compute(struct GreensFunction *e)
 {
@@ -332,7 +341,7 @@ void GreensFunction_compute(struct GreensFunction *e)
   if (!g_at_ghost) return;
   g_comp_hits++; REACH("compute_ghost");
   if (g_gstatus >= Computed) return;
-  if (g_gstatus < Prepared) { if (nondet_bool()) { VERIF_THROW("exStatusMismatch"); return; } }
+  if (g_gstatus < Prepared) { if (nondet_bool()) { VERIF_THROW("exStatusMismatch"); return; } g_gvanishing = nondet_bool(); }
   g_gstatus = Computed;
 }
 //@maythrow GreensFunction_prepare GreensFunction_compute
@@ -341,20 +350,20 @@ void GreensFunction_compute(struct GreensFunction *e)
 //@contract
 __CPROVER_requires(__CPROVER_is_fresh(self, sizeof(*self)) && self->pSource == self && g_self == self)
 __CPROVER_requires(__CPROVER_is_fresh(InitialIndices, sizeof(*InitialIndices)) && ISet_wf(*InitialIndices))
-__CPROVER_requires(!VERIF_thrown && g_prep_hits == 0 && g_created_X == 0)
-__CPROVER_assigns(EM, g_created, g_created_X, g_created_for, g_created_el, iset_cur, g_all, gmap_n, gmap_gpos, g_gstatus, g_at_ghost, g_prep_hits, g_n_calls, VERIF_thrown)
+__CPROVER_requires(!VERIF_thrown && g_prep_hits == 0 && g_created_X == 0 && (g_gstatus >= Prepared || g_gvanishing))
+__CPROVER_assigns(EM, g_created, g_created_X, g_created_for, g_created_el, iset_cur, g_all, gmap_n, gmap_gpos, g_gstatus, g_gvanishing, g_at_ghost, g_prep_hits, g_n_calls, VERIF_thrown)
 __CPROVER_ensures(PRES_WF(EM) && INV(EM))
 __CPROVER_ensures((InitialIndices->n != 0 && InitialIndices->ghas) ==> (EM.gpresent && g_created_X == 1))
 __CPROVER_ensures((!VERIF_thrown && EM.gpresent) ==> (g_prep_hits == 1 && g_gstatus >= Prepared))
 __CPROVER_ensures(!EM.gpresent ==> g_prep_hits == 0)
 //@loop 1
-__CPROVER_assigns(iter.idx, iter.pos, EM.other, g_gstatus, g_at_ghost, g_prep_hits, g_n_calls, VERIF_thrown)
+__CPROVER_assigns(iter.idx, iter.pos, EM.other, g_gstatus, g_gvanishing, g_at_ghost, g_prep_hits, g_n_calls, VERIF_thrown)
 __CPROVER_loop_invariant(iter.m == &EM && 0 <= iter.idx && iter.idx <= gmap_n && iter.pos == GMAP_POS(&EM, iter.idx) && !VERIF_thrown)
 __CPROVER_loop_invariant(g_prep_hits == ((EM.gpresent && iter.idx > gmap_gpos) ? 1UL : 0UL))
 __CPROVER_loop_invariant((EM.gpresent && iter.idx > gmap_gpos) ==> g_gstatus >= Prepared)
 __CPROVER_decreases(gmap_n - iter.idx)
 //@end
-//@harness h_GFC_prepareAll enforce=GFC_prepareAll replace=IC2C_fill props=C01 min_obl=482 reach=4 timeout=300
+//@harness h_GFC_prepareAll enforce=GFC_prepareAll replace=IC2C_fill props=C01 min_obl=488 reach=4 timeout=300
 void h_GFC_prepareAll(void)
 {
   struct GFContainer *c; ISet *s;
@@ -364,19 +373,19 @@ void h_GFC_prepareAll(void)
 //@function Pomerol::GFContainer::computeAll() as GFC_computeAll
 //@contract
 __CPROVER_requires(__CPROVER_is_fresh(self, sizeof(*self)) && g_self == self)
-__CPROVER_requires(PRES_WF(EM) && INV(EM) && !VERIF_thrown && g_comp_hits == 0)
+__CPROVER_requires(PRES_WF(EM) && INV(EM) && !VERIF_thrown && g_comp_hits == 0 && (g_gstatus >= Prepared || g_gvanishing))
 /* frame: presence bit and entry of the ghost key are not written => the container is unchanged, INV is preserved */
-__CPROVER_assigns(EM.other, gmap_n, gmap_gpos, g_gstatus, g_at_ghost, g_comp_hits, g_n_calls, VERIF_thrown)
+__CPROVER_assigns(EM.other, gmap_n, gmap_gpos, g_gstatus, g_gvanishing, g_at_ghost, g_comp_hits, g_n_calls, VERIF_thrown)
 __CPROVER_ensures((!VERIF_thrown && EM.gpresent) ==> (g_comp_hits == 1 && g_gstatus >= Computed))
 __CPROVER_ensures(!EM.gpresent ==> g_comp_hits == 0)
 //@loop 1
-__CPROVER_assigns(iter.idx, iter.pos, EM.other, g_gstatus, g_at_ghost, g_comp_hits, g_n_calls, VERIF_thrown)
+__CPROVER_assigns(iter.idx, iter.pos, EM.other, g_gstatus, g_gvanishing, g_at_ghost, g_comp_hits, g_n_calls, VERIF_thrown)
 __CPROVER_loop_invariant(iter.m == &EM && 0 <= iter.idx && iter.idx <= gmap_n && iter.pos == GMAP_POS(&EM, iter.idx) && !VERIF_thrown)
 __CPROVER_loop_invariant(g_comp_hits == ((EM.gpresent && iter.idx > gmap_gpos) ? 1UL : 0UL))
 __CPROVER_loop_invariant((EM.gpresent && iter.idx > gmap_gpos) ==> g_gstatus >= Computed)
 __CPROVER_decreases(gmap_n - iter.idx)
 //@end
-//@harness h_GFC_computeAll enforce=GFC_computeAll props=C01 min_obl=328 reach=4 timeout=300
+//@harness h_GFC_computeAll enforce=GFC_computeAll props=C01 min_obl=335 reach=4 timeout=300
 void h_GFC_computeAll(void)
 {
   struct GFContainer *c;
